@@ -5,7 +5,7 @@ the variable only if it was marked realized -- on all paths, same index; the
 'already realized' early-return tests the same index; the measure's realize
 hook reaches the update, and its getter reads the slot that was written."""
 from ..facts import extract, extract_split, units_matching, Program, AnalysisBroken, sx_find, sx_str
-from ..match import ev_write, is_call, call_args, call_obj, field_of, var_of, guard_blocks, value_sets, expand_locals
+from ..match import ev_write, is_call, call_args, call_obj, field_of, var_of, guard_blocks, value_sets, expand_locals, known_edges, only_via
 
 UNITS_QUICK = r"SimTKcommon/Simulation/src/Measure\.cpp$"
 UNITS_MORE = r"Simbody/src/(ExponentialSpringForce|CablePath|CableSpan|ContactTrackerSubsystem)\.cpp$"
@@ -85,6 +85,7 @@ def run(chk, tier, overlays=()):
     measures(chk, P)
     definitions(chk, P)
     depstage(chk, P)
+    condalloc(chk, P)
     chk.floor("PAIRCALL", 11)
 
 
@@ -93,6 +94,86 @@ MI = "SimTK::Measure_::"
 ARITH = {"Plus": ("+", ("left", "right")), "Minus": ("-", ("left", "right")), "Scale": ("*", ("factor", "operand"))}
 EXTREME_CMP = {"Maximum": (">", False), "Minimum": ("<", False), "MaxAbs": (">", True), "MinAbs": ("<", True)}
 EXTREME_INIT = {"Minimum": "+inf", "Maximum": "-inf", "MinAbs": "+inf", "MaxAbs": "0"}
+
+
+def condalloc(chk, P):
+    chk.rule("CONDALLOC", "a state resource (auto-update variable / cache entry index) that a measure allocates only under a flag of its own (Differentiate: resultIx under "
+             "isApproxInUse) is used only where that flag is known to hold: in the using method itself, or -- for a non-virtual helper -- at every call site of the helper; "
+             "otherwise the invalid index is handed to the State")
+    byc = {}
+    for f in P.all_fns():
+        if "Measure_" in f.name and "::Implementation::" in f.name and f.d.get("tmpl") == "pattern":
+            byc.setdefault(f.cls, []).append(f)
+    n = 0
+    for c, fs in sorted(byc.items()):
+        short = c.replace("SimTK::Measure_::", "").replace("::Implementation", "")
+        # fields allocated under a flag
+        cond = {}
+        for f in fs:
+            for b, i, e in f.events(lambda q: bool(ev_write(q)) and ev_write(q)[1] == "=" and isinstance(ev_write(q)[2], list) and
+                                    bool(sx_find(ev_write(q)[2], lambda y: y[0] in ("call", "dcall") and str(y[1]).split("::")[-1].startswith("allocate")))):
+                fld = _memname_any(ev_write(e)[0])
+                if not fld:
+                    continue
+                for flag in _bool_fields(f):
+                    edges = known_edges(f, lambda c_, flag=flag: _memname_any(c_) == flag and isinstance(c_, list) and c_[0] in ("mem", "dmem"), lambda c_: False)
+                    if edges and only_via(f, b, edges):
+                        cond[fld] = flag
+        for fld, flag in sorted(cond.items()):
+            isflag = lambda c_, flag=flag: isinstance(c_, list) and c_[0] in ("mem", "dmem") and _memname_any(c_) == flag
+
+            def guarded(f, b):
+                edges = known_edges(f, isflag, lambda c_: False)
+                return bool(edges) and only_via(f, b, edges)
+
+            def uses(f):
+                out = []
+                for b, i, e in f.events():
+                    for x in (e.get("x"), e.get("init"), e.get("rhs"), e.get("val")):
+                        if x is not None and sx_find(x, lambda y: y[0] in ("mem", "dmem") and _memname_any(y) == fld):
+                            if not (ev_write(e) and _memname_any(ev_write(e)[0]) == fld):
+                                out.append((b, e))
+                                break
+                return out
+            for f in sorted(fs, key=lambda f: f.id):
+                us = uses(f)
+                if not us or f.kind in ("ctor", "copyctor"):
+                    continue
+                nm = f.name.split("::")[-1]
+                unguarded = [e for b, e in us if not guarded(f, b)]
+                if not unguarded:
+                    n += 1
+                    chk.ok("CONDALLOC", "%s:%s:%s-used-under-%s" % (short, nm, fld, flag), f.loc, "every use of %s is on the %s side" % (fld, flag))
+                    continue
+                # a helper: every call site must be guarded (virtual entry points have unknown callers and cannot rely on this)
+                sites = [(g, b, e) for g in fs for b, _, e in g.calls() if str(e.get("fn", "")).split("::")[-1] == nm and g is not f] + \
+                        [(g, b, e) for g in fs for b, _, e in g.events(lambda q: q["k"] == "call" and isinstance(q.get("x"), list) and q["x"][0] == "dcall" and str(q["x"][1]).split("::")[-1] == nm) if g is not f]
+                sites = list({id(x[2]): x for x in sites}.values())
+                virt = bool(f.d.get("virtual")) or nm.endswith("Virtual")
+                n += 1
+                bad = [(g, e) for g, b, e in sites if not guarded(g, b)]
+                chk.judge(bool(sites) and not virt and not bad, "CONDALLOC", "%s:%s:%s-used-under-%s" % (short, nm, fld, flag), "%s:%d" % (f.file, unguarded[0]["line"]),
+                          "%s uses %s without testing %s, and %s" % (nm, fld, flag, ("it is a virtual entry point" if virt else "its call site in %s is not under %s either" %
+                                                                     (bad[0][0].name.split("::")[-1] if bad else "?", flag))))
+    chk.shape(n >= 3, "CONDALLOC", "conditionally-allocated-resources", "", "%d (method, resource) pairs examined" % n)
+
+
+def _memname_any(x):
+    if isinstance(x, list) and x and x[0] in ("mem", "dmem"):
+        return str(x[2]).split("::")[-1]
+    if isinstance(x, list) and x and x[0] in ("cast", "conv") and len(x) > 1:
+        return _memname_any(x[2] if x[0] == "cast" else x[1])
+    return None
+
+
+def _bool_fields(f):
+    out = set()
+    for b, blk in f.blocks.items():
+        t = blk.get("term")
+        if t and isinstance(t.get("cond"), list):
+            for y in sx_find(t["cond"], lambda y: y[0] in ("mem", "dmem")):
+                out.add(str(y[2]).split("::")[-1])
+    return out
 
 
 def depstage(chk, P):
@@ -355,6 +436,8 @@ _M = "SimTKcommon/Simulation/include/SimTKcommon/internal/MeasureImplementation.
 _X = "Simbody/src/ExponentialSpringForce.cpp"
 _MI = "SimTKcommon/Simulation/include/SimTKcommon/internal/MeasureImplementation.h"
 MUTATIONS = [
+    dict(name="Differentiate realizes its approximation even when none is in use (pre-fix code)", arm=True, file="SimTKcommon/Simulation/include/SimTKcommon/internal/MeasureImplementation.h",
+         old="        if (isApproxInUse)\n            ensureDerivativeIsRealized(s);", new="        ensureDerivativeIsRealized(s);", expect="CONDALLOC:Differentiate:ensureDerivativeIsRealized"),
     dict(name="seeded (sub-agent): Minus takes its depends-on stage from the left operand twice", arm=True, file="SimTKcommon/Simulation/include/SimTKcommon/internal/MeasureImplementation.h",
          old="    {   return Stage(std::max(left.getDependsOnStage(order),\n                              right.getDependsOnStage(order))); }", occurrence=1,
          new="    {   return Stage(std::max(left.getDependsOnStage(order),\n                              left.getDependsOnStage(order))); }", expect="DEPSTAGE:Minus:calcCachedValueVirtual reads right"),
